@@ -8,6 +8,7 @@ Definition conc_tag (c : conc) : N :=
   match c with
   | CInt => 0 | CStr => 1 | CFloat => 2 | CBool => 3 | CBytes => 4 | CTuple => 5
   | CFrozenset => 6 | CList => 7 | CDict => 8 | CSet => 9 | CNoZero => 10
+  | COrdDict => 11 | CDefDict => 12 | CCounter => 13 | CMyList => 14
   end%N.
 Definition conc_eqb (a b : conc) : bool := (conc_tag a =? conc_tag b)%N.
 
@@ -92,7 +93,12 @@ Definition ann_table : list (ty * expect) :=
     (TLiteral [VStr (S "r"); VStr (S "r+")], XVal (VStr (S "r"))); (TLiteral [VNone; VInt 3], XVal VNone);
     (TRef None, XVal VNone); (TRef (Some t_int), XVal (VInt 0));
     (TRef (Some (TUnion [t_int; TNoneType])), XVal VNone); (TRef (Some (g_list false)), XFresh (FacConc CList));
-    (TAnnot t_int [EOther; EOther], XVal (VInt 0)); (TAnnot (TUnion [t_int; t_str]) [EOther], XVal (VInt 0)) ].
+    (TAnnot t_int [EOther; EOther], XVal (VInt 0)); (TAnnot (TUnion [t_int; t_str]) [EOther], XVal (VInt 0));
+    (* collection types that SUBCLASS dict / list: the implied default is a fresh product too *)
+    (TConc COrdDict, XFresh (FacConc COrdDict)); (TConc CDefDict, XFresh (FacConc CDefDict));
+    (TConc CCounter, XFresh (FacConc CCounter)); (TConc CMyList, XFresh (FacConc CMyList));
+    (TGen (GConc COrdDict) true, XFresh (FacConc COrdDict)); (TGen (GConc CCounter) true, XFresh (FacConc CCounter));
+    (TUnion [TGen (GConc CDefDict) true; t_str], XFresh (FacConc CDefDict)) ].
 
 Definition cell : Type := style * (dkk * (ty * expect)).
 Definition matrix : list cell := list_prod styles (list_prod dkinds ann_table).
